@@ -244,7 +244,17 @@ def cscd_of(i, ver):
     dtype, desig = DESIGS[i % len(DESIGS)]
     dev, devkw, devexp = DEVTYPES[(i // len(DESIGS)) % len(DEVTYPES)]
     rel = (0, 1, 0xFFFF)[i % 3]
-    params = {"code_set": 1 + (i % 2), "association": i % 3, "designator_type": dtype, "designator_length": 0, "designator": dict(desig)}
+    payload0 = R.designator_bytes(dtype, desig)
+    # the optional, redundant designator_length key: absent, correct, or stale (as when the dictionary comes from an INQUIRY result
+    # and the designator was edited afterwards) - the list must carry the honest length in every case
+    params = {"code_set": 1 + (i % 2), "association": i % 3, "designator_type": dtype, "designator": dict(desig)}
+    variant = (i // (len(DESIGS) * len(DEVTYPES))) % 4
+    if variant == 1:
+        params["designator_length"] = len(payload0)
+    elif variant == 2:
+        params["designator_length"] = 0xFF
+    elif variant == 3:
+        params["designator_length"] = 0
     d = {"descriptor_type_code": 0xE4, "peripheral_device_type": dev, "relative_initiator_port_identifier": rel,
          ("target_descriptor_parameters" if ver == 4 else "cscd_descriptor_parameters"): params, "device_type_specific_parameters": dict(devkw)}
     payload = R.designator_bytes(dtype, desig)
@@ -349,6 +359,8 @@ def gen(part, tier):
         for vals in c04.field_points(hfields, max(k, 2)):
             yield ["xcopy", ver, {ren.get(a, a): b for a, b in vals.items()}, [0], [2], 0]
         ncs = len(DESIGS) * len(DEVTYPES)
+        for i in range(ncs, 4 * ncs):
+            yield ["xcopy", ver, {}, [i], [], 0]
         for i in range(ncs):
             yield ["xcopy", ver, {}, [i], [], 0]
             yield ["xcopy", ver, {}, [i, (i + 7) % ncs], [2], 1]
